@@ -1002,3 +1002,9 @@ def _drop_from_key_kw(tree, which, kw):
                     c.keywords = [k for k in c.keywords if k.arg != kw]
                     return True
     return False
+
+
+from . import c03 as _c03
+PROP.obligation('C09.public-master-account', canaries=[
+    mut.replace_expr('keys', 'HDKey.public_master_multisig', 'self.public_master(account_id, purpose, True, witness_type, as_private)', 'self.public_master(purpose=purpose, multisig=True, witness_type=witness_type, as_private=as_private)', 'cosigner keys of account N are the ones of account 0'),
+])(_c03.public_master_account)
